@@ -34,17 +34,19 @@ def Q1_guarded_create(ctx):
         if len(ld) != 1 or not (ld[0].d['args'][1][0] == 'call' and ld[0].d['args'][1][1].endswith('InputsTr::target_address')):
             bad.append((p, 'the account checked for a delegation is not the frame\'s target_address'))
             continue
-        lo = [a for a in at if a.d['term'][0] == 'discr' and a.d['term'][1] == ld[0].d['result']]
-        if lo and lo[0].d['outcome'] == 'None':
+        lo = [of for of in (option_fact(a) for a in at) if of and strip(of[0]) == strip(ld[0].d['result'])]
+        if lo and lo[0][1] == 'None':
             rows.add('load-failure')
             if not err('FatalExternalError'):
                 bad.append((p, 'load failure must be FatalExternalError'))
             continue
-        dg = [a for a in at if a.d['term'][0] == 'call' and callee_matches(a.d['term'][1], ('Option::is_some', 'Option::is_none')) and mentions_field(a.d['term'][2][0], 'is_delegate_account_cold')]
+        # the designator flag of THIS load, however its presence is tested (is_some / is_none / match / if let)
+        dg = [of for of in (option_fact(a) for a in at) if of and of[1] in ('Some', 'None') and of[0][0] == 'field' and of[0][2].endswith('is_delegate_account_cold')
+              and mentions(of[0], ld[0].d['result'])]
         if not dg:
             bad.append((p, 'delegation designator not tested'))
             continue
-        delegated = (dg[0].d['outcome'] == 'true') == dg[0].d['term'][1].endswith('is_some')
+        delegated = dg[0][1] == 'Some'
         if delegated:
             rows.add('delegated')
             if not err('NotActivated') or [e for e in p.events if e.kind == 'call' and e.d['callee'].endswith('contract::create')]:
@@ -237,7 +239,7 @@ def H2_enforce(ctx):
         create = isc[0].d['outcome'] == 'true' if isc else None
         exp = ['checkpoint_revert', 'reserve_violation_result'] + (['reapply_create_sender_nonce'] if create else []) + ['refund', 'build_result_gas', 'eip7623_check_gas_floor', 'reimburse_caller']
         rows.add('violation:create' if create else 'violation:call')
-        is_err_path0 = ret[0] == 'call' and callee_matches(ret[1], '::from_residual')
+        is_err_path0 = (ret[0] == 'call' and callee_matches(ret[1], '::from_residual')) or (ret[0] == 'agg' and ret[2] == 'Err' and has_call(ret, '::from_residual'))
         if (order != exp and not is_err_path0) or (is_err_path0 and order != exp[:len(order)]):
             bad.append((p, f'violation sequence {order} != {exp}'))
         # synthetic result assigned to *exec_result from the pre-refund execution gas
@@ -251,7 +253,7 @@ def H2_enforce(ctx):
         if rf and rf[0].d['args'][3] != ('arg', 6):
             bad.append((p, 'refund does not re-apply the authorisation refund'))
         okret = ret[0] == 'agg' and ret[2] == 'Ok' and variant_of(ret[3][0]) == 'Some' and has_call(ret, 'post_execution::build_result_gas')
-        is_err_path = ret[0] == 'call' and callee_matches(ret[1], '::from_residual')
+        is_err_path = is_err_path0
         if not okret and not is_err_path:
             bad.append((p, 'violation path does not return the recomputed result gas'))
     ctx.ob('H2', f, 'enforce-reserve-sequence', {'holds', 'violation:create', 'violation:call'} <= rows and not bad, '; '.join(sorted(set(w for _, w in bad))[:3]) + f' rows={sorted(rows)}', site=f.loc(f.b['lo']),
@@ -446,12 +448,15 @@ def H4b_journal_tables(ctx):
                     for fld in je_fields(other):
                         conds.setdefault(fld, n[0])
         op = None
+        # the running balance: the user variable initialised from the final balance (argument 4)
+        acc = [e.d['place'][1] for e in p.events if e.kind == 'assign' and e.d['place'][0] == 'var' and e.d['value'] == ('arg', 4)]
+        acc = acc[0] if acc else 'balance'
         for e in p.events:
             if e.kind == 'call' and e.d['callee'].endswith('::saturating_add'):
                 op = ('add', tuple(je_fields(e.d['args'][1])))
             if e.kind == 'call' and e.d['callee'].endswith('::saturating_sub'):
                 op = ('sub', tuple(je_fields(e.d['args'][1])))
-            if e.kind == 'assign' and e.d['place'] == ('var', 'balance') and 'old_balance' in je_fields(e.d['value']):
+            if e.kind == 'assign' and e.d['place'] == ('var', acc) and 'old_balance' in je_fields(e.d['value']):
                 op = ('set', ('old_balance',))
         rows.add((var, tuple(sorted(conds.items())), op[0] if op else None, op[1] if op else ()))
     exp_ops = {
@@ -503,31 +508,36 @@ def H4b_journal_tables(ctx):
     f = ctx.fn(fs[0])
     src = set()
     for p in live(f.paths(max_visits=2)):
-        ent = [a for a in p.events if a.kind == 'atom' and a.d['term'][0] == 'discr' and len(a.d['term']) > 2 and a.d['term'][2].endswith('JournalEntry') and a.d['outcome'] in ('BalanceTransfer', 'AccountDestroyed')]
-        for a in ent:
-            i0 = idx_of(p, a)
-            guards = []
-            took = None
-            for x in p.events[i0 + 1:i0 + 16]:
-                if x.kind == 'atom':
-                    n = norm_cmp(x)
-                    if n and n[0] in ('Ne', 'Eq') and je_fields(x.d['term']):
-                        guards.append(n[0] + ':' + ','.join(je_fields(x.d['term'])))
-                    t = x.d['term']
-                    neg = False
-                    while t[0] == 'un' and t[1] == 'Not':
-                        t = t[2]
-                        neg = not neg
-                    if t[0] == 'call' and t[1].endswith('::is_zero') and x.d['outcome'] in ('true', 'false'):
-                        z = (x.d['outcome'] == 'true') != neg
-                        guards.append(('zero' if z else 'nonzero') + ':' + ','.join(je_fields(t)))
-                if x.kind == 'assign' and x.d['place'] == ('var', 'source') and x.d['value'][0] == 'agg' and x.d['value'][2] == 'Some':
-                    took = tuple(je_fields(x.d['value']))
+        for i, e in enumerate(p.events):
+            # a recorded debit source: first_debit.entry(KEY).or_insert(position)
+            if not (e.kind == 'call' and norm_callee(e.d['callee']).endswith('::or_insert') and e.d['args']):
+                continue
+            ent_call = [c for c in calls_in(e.d['args'][0]) if norm_callee(c[1]).endswith('::entry')]
+            if not ent_call or len(ent_call[0][2]) < 2:
+                continue
+            took = tuple(je_fields(ent_call[0][2][1]))
+            # the journal-entry classification this source was derived from, and the conditions on
+            # the entry's own fields decided between it and the insertion
+            i0 = None
+            for j in range(i - 1, -1, -1):
+                a = p.events[j]
+                if a.kind == 'atom' and a.d['term'][0] == 'discr' and len(a.d['term']) > 2 and a.d['term'][2].endswith('JournalEntry'):
+                    i0 = j
                     break
-                if x.kind == 'call' and x.d['callee'].endswith('::next'):
-                    break
-            if took is not None:
-                src.add((a.d['outcome'], tuple(guards), took))
+            if i0 is None:
+                continue
+            variant = p.events[i0].d['outcome']
+            guards = set()
+            for x in p.events[i0 + 1:i]:
+                if x.kind != 'atom':
+                    continue
+                n = norm_cmp(x)
+                if n and n[0] in ('Ne', 'Eq') and je_fields(x.d['term']) and not tx_fields(x.d['term']):
+                    guards.add(n[0] + ':' + ','.join(je_fields(x.d['term'])))
+                bf = bool_fact(x)
+                if bf and bf[0][0] == 'call' and bf[0][1].endswith('::is_zero') and je_fields(bf[0]):
+                    guards.add(('zero' if bf[1] else 'nonzero') + ':' + ','.join(je_fields(bf[0])))
+            src.add((variant, tuple(sorted(guards)), took))
     exp = {('BalanceTransfer', ('Ne:from,to', 'nonzero:balance'), ('from',)), ('AccountDestroyed', ('nonzero:had_balance',), ('address',))}
     ctx.ob('H4', f, 'debit-source-conditions', src == exp, f'{sorted(map(str, src))}'[:400], site=f.loc(f.b['lo']),
            what='a debit is a non-zero BalanceTransfer with from ≠ to (source = from) or an AccountDestroyed with non-zero had_balance (source = the destroyed address)')
